@@ -70,7 +70,8 @@ def zone():
     trip = st.tuples(st.sampled_from(["critical", "hot", "passive", "active",
                                       "high"]),
                      st.one_of(st.integers(0, 130000),
-                               st.sampled_from([0, 105000, 95000])))
+                               st.sampled_from([0, 105000, 95000]),
+                               st.sampled_from(["N/A", ""])))     # not a number
     return st.fixed_dictionaries(dict(
         type=st.sampled_from(["x86_pkg_temp", "acpitz", "cpu-thermal", "B0D4"]),
         temp=st.one_of(st.integers(-20000, 120000),
@@ -246,12 +247,12 @@ def build(case):
         put_reading(k, d + "/temp", z["temp"])
         for j, (tt, tv) in enumerate(z["trips"]):
             k.set_file(f"{d}/trip_point_{j}_type", (tt + "\n").encode())
-            k.set_file(f"{d}/trip_point_{j}_temp", b"%d\n" % tv)
+            k.set_file(f"{d}/trip_point_{j}_temp", (str(tv) + "\n").encode())
             k.set_file(f"{d}/trip_point_{j}_hyst", b"0\n")
         if not any_temp_base and readable_int(z["temp"]):
             trips = dict((t, v) for t, v in z["trips"])
-            high = Fraction(trips["high"], 1000) if "high" in trips else None
-            crit = Fraction(trips["critical"], 1000) if "critical" in trips else None
+            high = Fraction(trips["high"], 1000) if isinstance(trips.get("high"), int) else None
+            crit = Fraction(trips["critical"], 1000) if isinstance(trips.get("critical"), int) else None
             high, crit = backfill(high, crit)
             exp_t.setdefault(z["type"], []).append(
                 ("", Fraction(z["temp"], 1000), high, crit))
